@@ -104,6 +104,8 @@ def lin(e):
     p = access_path(e)
     if p:
         return 0, p
+    if k in ('try', 'await', 'call'):
+        return 0, 'expr:' + show(e)
     return None, None
 
 
